@@ -21,7 +21,7 @@ func rulesC09(e *Engine, r *Report) {
 			{"io.Copy(handle, reader)", `call(io.Copy)(call(os.OpenFile)((` + path + ` + ".part"), §)#0, p2)`},
 			{"companion of the same path and file", `call(stage.newLocalCompanion)(` + path + `, p1)`},
 			{"addCompanionPart(cmp, part.Beg, part.End)", `call(stage.addCompanionPart)(call(stage.newLocalCompanion)(` + path + `, p1)#0, ` + part + `.Beg, ` + part + `.End)`},
-			{"writeCompanion(path, cmp) of that companion", `call(stage.writeCompanion)(` + path + `, call(stage.newLocalCompanion)(` + path + `, p1)#0)`},
+			{"writeCompanion(path, cmp) of that companion", `call(stage.writeCompanion)((` + path + ` + ".cmp"), call(stage.newLocalCompanion)(` + path + `, p1)#0)`},
 			{"completeness judged on that companion", `call(stage.isCompanionComplete)(call(stage.newLocalCompanion)(` + path + `, p1)#0)`},
 		}
 		for _, c := range checks {
@@ -111,7 +111,7 @@ func rulesC09(e *Engine, r *Report) {
 		path := "call(filepath.Join)([p0.rootDir, invoke(sts.Binned.GetName)(p1)])"
 		lock := "call(stage.(*Stage).getPathLock)(p0, " + path + ")"
 		cls := labeler(I("call(sync.(*RWMutex).«(RLock|Lock)»)("+lock+")", "locked"), IK("call(sync.(*RWMutex).«(RUnlock|Unlock)»)("+lock+")", "locked"))
-		n := e.Guarded(r, "R09.3", "stage.(*Stage).partReceived: readLocalCompanion under the path lock", fn, e.instrMatch("call(stage.readLocalCompanion)("+path+", §)"), cls,
+		n := e.Guarded(r, "R09.3", "stage.(*Stage).partReceived: readLocalCompanion under the path lock", fn, e.instrMatch("call(stage.readLocalCompanion)(("+path+" + \".cmp\"), §)"), cls,
 			func(l LabelSet) bool { return l.Has("locked") }, "getPathLock(path) held")
 		r.Min("R09.3", "companion reads in partReceived", n, 1)
 	}
@@ -348,7 +348,7 @@ func rulesC09(e *Engine, r *Report) {
 	// ---------------------------------------------------------------- R09.12
 	r.Rule("R09.12", "delivering a version does not erase the record of the next: the deliverer removes the companion only when there is none to read or the one on disk carries the hash of the file just delivered - while a parked version waits, a newer version's acknowledged ranges are recorded in that same companion file")
 	if fn := needFn(e, r, "R09.12", "stage.(*Stage).putFileAway"); fn != nil {
-		cmp := "call(stage.readLocalCompanion)(p1.path, §)#0"
+		cmp := "call(stage.readLocalCompanion)((p1.path + \".cmp\"), §)#0"
 		cls := labeler(
 			C("("+cmp+" == nil)", "none"),
 			C("("+cmp+".Hash == p1.hash)", "sameVersion"),
@@ -358,4 +358,7 @@ func rulesC09(e *Engine, r *Report) {
 			func(l LabelSet) bool { return l.HasAny("none", "sameVersion") }, "no companion, or companion.Hash == file.hash")
 		r.Min("R09.12", "companion removals in the deliverer", n, 1)
 	}
+	// ---------------------------------------------------------------- R09.13
+	r.Rule("R09.13", "the record of a file is not shared with a file of another name: same check as R01.16 (a file called `x.cmp` must not be recorded in the companion of `x`)")
+	checkCompanionPathsExplicit(e, r, "R09.13")
 }
